@@ -366,12 +366,15 @@ pub fn propagate_comparison(
                 // TODO: Propagation is not possible until we support interval sets.
                 Ok(None)
             }
-            Operator::Gt => satisfy_greater(right_child, left_child, false),
-            Operator::GtEq => satisfy_greater(right_child, left_child, true),
-            Operator::Lt => satisfy_greater(left_child, right_child, false)
+            // NOT (left > right) <=> right >= left. Since the operands are
+            // swapped when calling `satisfy_greater`, swap the results back:
+            Operator::Gt => satisfy_greater(right_child, left_child, false)
                 .map(|t| t.map(reverse_tuple)),
-            Operator::LtEq => satisfy_greater(left_child, right_child, true)
+            Operator::GtEq => satisfy_greater(right_child, left_child, true)
                 .map(|t| t.map(reverse_tuple)),
+            // NOT (left < right) <=> left >= right:
+            Operator::Lt => satisfy_greater(left_child, right_child, false),
+            Operator::LtEq => satisfy_greater(left_child, right_child, true),
             _ => internal_err!(
                 "The operator must be a comparison operator to propagate intervals"
             ),
